@@ -258,6 +258,22 @@ def compare(c, full, parts, pauses, hyd, wit):
                     if tie.any():
                         c.count('zero_flow_status_ties', int(tie.sum()))
                         bad = bad & ~tie
+                    if bad.any():
+                        # ... and a check valve is only re-opened by a head difference above Htol: a short wide CV pipe passes its
+                        # flow at a head loss below Htol, so 'closed with |dh| <= Htol' and 'open with forward flow' both satisfy the
+                        # simulator's own status rules
+                        Ha = pd.concat([p.node['head'] for p in parts]); Hb = full.node['head']
+                        for jj, ln_ in enumerate(f.columns):
+                            l_ = wn_.get_link(ln_)
+                            if not bad[:, jj].any() or not getattr(l_, 'check_valve', False):
+                                continue
+                            for ii in np.where(bad[:, jj])[0]:
+                                closed_H = Ha if a[ii, jj] == 0 else Hb
+                                dh_ = float(closed_H[l_.start_node_name].values[ii]) - float(closed_H[l_.end_node_name].values[ii])
+                                q_open = qb[ii, jj] if a[ii, jj] == 0 else qa[ii, jj]
+                                if abs(dh_) <= 1.6e-4 and q_open >= -2.83168e-6:
+                                    bad[ii, jj] = False
+                                    c.count('flat_check_valve_status_ties')
             else:
                 tol = (1e-4 if key in ('head', 'pressure', 'setting') else 1e-6) + 1e-5 * np.maximum(abs(a), abs(b))
                 if key == 'flowrate':
